@@ -94,7 +94,60 @@ def strategy(tier):
     return cases()
 
 
+def _range_binary():
+    """A small linked ELF: calls / jumps between two functions and a call from a second section into the first."""
+    from vlib.elfw import make_elf
+
+    text = bytes.fromhex("55 4889e5 e80b000000 eb05 90 e8f3ffffff c3 90 4831c0 c3 eb01 c3".replace(" ", ""))
+    hot = bytes.fromhex("50 e8 fa ef ff ff 58 e9 f4 ef ff ff c3".replace(" ", ""))
+    return make_elf([(".text", text, True), (".text.hot", hot, True)], [("main", 1, 0), ("helper", 1, 0x15), ("hot", 2, 0)], addrs=[0x401000, 0x402000], etype=2)
+
+
+def eval_binary_range(case):
+    """The same rule - with a range that covers only part of the code - on the binary and on the text objdump prints for it: the
+    range concerns branch TARGETS; it must not change which instructions there are (C15 for a rule that carries the option)."""
+    from vlib.elfw import disassemble_object
+    from vlib.refnorm import decode_stream
+
+    ev = Eval()
+    sc = jasm_io.scratch()
+    path = sc.write("c18_range.elf", _range_binary())
+    rc, text, _ = disassemble_object(path)
+    tpath = sc.write("c18_range.s", text)
+    lo, hi = case["binary_range"]
+    cfg = {"valid_addr_range": {"min": lo, "max": hi}}
+    ev.subcases = 0
+    for rule in ([{"call": ["valid_addr"]}], [{"jmp": ["valid_addr"]}], ["ret"]):
+        rp = sc.write("c18_range_rule.yaml", jasm_io.rule_text(jasm_io.make_doc(rule, config=cfg)))
+        for mode, only in (("str", False), ("list", True)):
+            b = jasm_io.match_files(rp, path, mode=mode, search="all", only_addr=only, binary=True)
+            a = jasm_io.match_files(rp, tpath, mode=mode, search="all", only_addr=only, binary=False)
+            ev.subcases += 1
+            if a[:2] != b[:2]:
+                ev.dev("binary-vs-text-with-range", range=[lo, hi], rule=rule, mode=mode, text_route=str(a[1])[:300], binary_route=str(b[1])[:300])
+                break
+    plain = jasm_io.match_files(sc.write("c18_range_rule.yaml", "pattern:\n  - zzzz\n"), path, mode="str", binary=True)
+    ranged = jasm_io.match_files(sc.write("c18_range_rule.yaml", jasm_io.rule_text(jasm_io.make_doc(["zzzz"], config=cfg))), path, mode="str", binary=True)
+    if plain[0] == "ok" and ranged[0] == "ok":
+        dp, dr = decode_stream(plain[1]) or [], decode_stream(ranged[1]) or []
+        if [(a_, m_) for a_, m_, _ in dp] != [(a_, m_) for a_, m_, _ in dr]:
+            ev.dev("instructions-change-with-range", range=[lo, hi], without=len(dp), with_range=len(dr))
+    ev.tags = ["binary-input-with-range"]
+    ev.nontrivial = True
+    ev.keys = [("binary-range", lo, hi)]
+    return ev
+
+
+def extra(tier, seed, rep):
+    for rng in (("0x401015", "0x401015"), ("401010", "40101f"), ("0x402000", "0x402fff"), ("0x401000", "0x401005"), ("0", "0xffffffff"), ("401016", "401014")):
+        case = {"binary_range": list(rng)}
+        rep.add_eval(case, eval_binary_range(case))
+    rep.exhaustive_parts.append("6 ranges (a single address, part of one function, another section, everything, inverted) on a linked ELF: binary route vs text route, instruction list with and without the option")
+
+
 def evaluate(case):
+    if "binary_range" in case:
+        return eval_binary_range(case)
     ev = Eval()
     lo, hi = case["lo"], case["hi"]
     lines = list(HEADER)
